@@ -73,6 +73,26 @@ func TestKeysAndSignatures(t *testing.T) {
 			rt.Fail(t, "C14/verify-honest", "honest signature rejected")
 			return
 		}
+		// the application keeps ONE 64-byte key buffer and loads another key into it between two signing calls:
+		// every signature must be the standard library's for the key that is in the buffer at the time of the call
+		seed2 := gen.Bytes32().Draw(t, "seed2")
+		buf := make(pated.PrivateKey, 64)
+		copy(buf, pk)
+		first := pated.Sign(buf, msg)
+		copy(buf, pated.NewKeyFromSeed(seed2))
+		second := pated.Sign(buf, msg)
+		third, err3 := buf.Sign(nil, msg, crypto.Hash(0))
+		want2 := stded.Sign(stded.NewKeyFromSeed(seed2), msg)
+		if !bytes.Equal(first, ss) || !bytes.Equal(second, want2) || err3 != nil || !bytes.Equal(third, want2) {
+			rt.Fail(t, "C14/sign-key-buffer-reused", "one key buffer held the key of seed %x, then of seed %x: the signatures made from it are not crypto/ed25519's for the key it held at the time (first ok=%v second ok=%v third ok=%v)", seed, seed2, bytes.Equal(first, ss), bytes.Equal(second, want2), bytes.Equal(third, want2))
+			return
+		}
+		// and back again (the first key returns to the same buffer)
+		copy(buf, pk)
+		if again := pated.Sign(buf, msg); !bytes.Equal(again, ss) {
+			rt.Fail(t, "C14/sign-key-buffer-reused", "key buffer reloaded with its first key: signature differs from crypto/ed25519's")
+			return
+		}
 		s.Sample(func() any { return map[string]any{"seed": rt.Hex(seed), "msg_len": len(msg), "sig": rt.Hex(ps)} })
 	})
 }
@@ -411,6 +431,15 @@ func TestScalarArithmetic(t *testing.T) {
 		}
 		if ai.Sign() != 0 {
 			if !eq("invert", pated.VerifScalarInvert(a), new(big.Int).ModInverse(ai, L)) {
+				return
+			}
+		}
+		// scalars whose INVERSE is short (1..31 significant bytes): x drawn with that many bytes, input = x^-1 mod l
+		short := gen.Bytes(t, 1, 31, "shortInverse")
+		if x := new(big.Int).Mod(new(big.Int).SetBytes(short), L); x.Sign() != 0 {
+			in := ref.EdScalarBytes(new(big.Int).ModInverse(x, L))
+			if got := pated.VerifScalarInvert(in); !bytes.Equal(got, ref.EdScalarBytes(x)) {
+				rt.Fail(t, "C14/scalar/invert-short-result", "ModInverse(%x) = %x, math/big says %x (a %d-byte value)", in, got, ref.EdScalarBytes(x), len(short))
 				return
 			}
 		}
